@@ -298,7 +298,7 @@ func vcRunC06(t *vcTrial, cfg vc06Cfg) {
 				return
 			}
 			time.Sleep(100 * time.Millisecond)
-			if atomic.LoadInt32(&invocations) == inv0 && c.inputBuffer.Len() == len0 && c.isUnlock(processing) && c.IsActive() && atomic.LoadInt32(&inHandler) == 0 && vcPollerDoneWithInput(mark, c) {
+			if len0 > 0 && atomic.LoadUint64(&consumed) < total() && atomic.LoadInt32(&invocations) == inv0 && c.inputBuffer.Len() == len0 && c.isUnlock(processing) && c.IsActive() && atomic.LoadInt32(&inHandler) == 0 && vcPollerDoneWithInput(mark, c) {
 				t.Violate("C06", "stranded_input", "%d unread bytes are buffered (sender wrote %d, handler consumed %d), the connection is active, no OnRequest invocation is in progress, the processing lock is free, and 5 runner tasks completed meanwhile: the input is stranded until another network event", len0, total(), atomic.LoadUint64(&consumed))
 				break
 			}
